@@ -129,6 +129,44 @@ MUTANTS += [
     ("c19-qr-diag-mm", ["C19"], [(T + "svd.py", "        diagonal = torch.diag(self.diagonal)\n        weight, _ = self.orthogonal_2.inverse(diagonal)", "        diagonal = torch.eye(self.features) * 1.0\n        weight, _ = self.orthogonal_2.inverse(diagonal)")], "DT-MIX"),
 ]
 
+FB = "nflows/flows/base.py"
+DB = "nflows/distributions/base.py"
+DN = "nflows/distributions/normal.py"
+MUTANTS += [
+    # ---- C03 ----
+    ("c03-drop-logabsdet", ["C03"], [(FB, "        return log_prob + logabsdet", "        return log_prob")], "COV-ASSEMBLE"),
+    ("c03-minus-logabsdet", ["C03"], [(FB, "        return log_prob + logabsdet", "        return log_prob - logabsdet")], "COV-ASSEMBLE"),
+    ("c03-double-logabsdet", ["C03"], [(FB, "        return log_prob + logabsdet", "        return log_prob + logabsdet + logabsdet")], "COV-ASSEMBLE"),
+    ("c03-base-at-inputs", ["C03"], [(FB, "            log_prob = self._distribution.log_prob(noise, context=embedded_context)", "            log_prob = self._distribution.log_prob(inputs, context=embedded_context)")], "COV-ASSEMBLE"),
+    ("c03-inverse-direction", ["C03"], [(FB, "        noise, logabsdet = self._transform(inputs, context=embedded_context)\n        if self._context_used_in_base:", "        noise, logabsdet = self._transform.inverse(inputs, context=embedded_context)\n        if self._context_used_in_base:")], "COV-ASSEMBLE"),
+    ("c03-raw-context-to-base", ["C03"], [(FB, "            log_prob = self._distribution.log_prob(noise, context=embedded_context)", "            log_prob = self._distribution.log_prob(noise, context=context)")], "COV-ASSEMBLE"),
+    ("c03-normal-plus-logz", ["C03"], [(DN, "        return neg_energy - self._log_z", "        return neg_energy + self._log_z")], "BASE-TERMS"),
+    ("c03-normal-no-half", ["C03"], [(DN, "        neg_energy = -0.5 * \\\n            torchutils.sum_except_batch(inputs ** 2, num_batch_dims=1)", "        neg_energy = -1.0 * \\\n            torchutils.sum_except_batch(inputs ** 2, num_batch_dims=1)")], "BASE-TERMS"),
+    ("c03-diag-logstd-sign", ["C03"], [(DN, "        log_prob -= torchutils.sum_except_batch(log_stds, num_batch_dims=1)\n        log_prob -= self._log_z\n        return log_prob\n\n    def _sample(self, num_samples, context):\n        raise", "        log_prob += torchutils.sum_except_batch(log_stds, num_batch_dims=1)\n        log_prob -= self._log_z\n        return log_prob\n\n    def _sample(self, num_samples, context):\n        raise")], "BASE-TERMS"),
+    ("c03-cond-no-logstd", ["C03"], [(DN, "        log_prob -= torchutils.sum_except_batch(log_stds, num_batch_dims=1)\n        log_prob -= self._log_z\n        return log_prob\n\n    def _sample(self, num_samples, context):\n        # Compute", "        log_prob -= self._log_z\n        return log_prob\n\n    def _sample(self, num_samples, context):\n        # Compute")], "BASE-TERMS"),
+    ("c03-exp-plus-logstd", ["C03"], [(DN, "        norm_inputs = (inputs - means) * torch.exp(-log_stds)\n        log_prob = -0.5 * torchutils.sum_except_batch(\n            norm_inputs ** 2, num_batch_dims=1\n        )\n        log_prob -= torchutils.sum_except_batch(log_stds, num_batch_dims=1)\n        log_prob -= self._log_z\n        return log_prob\n\n    def _sample(self, num_samples, context):\n        # Compute", "        norm_inputs = (inputs - means) * torch.exp(log_stds)\n        log_prob = -0.5 * torchutils.sum_except_batch(\n            norm_inputs ** 2, num_batch_dims=1\n        )\n        log_prob -= torchutils.sum_except_batch(log_stds, num_batch_dims=1)\n        log_prob -= self._log_z\n        return log_prob\n\n    def _sample(self, num_samples, context):\n        # Compute")], "BASE-TERMS"),
+    # ---- C04 ----
+    ("c04-plus-logabsdet", ["C04"], [(FB, "        return samples, log_prob - logabsdet", "        return samples, log_prob + logabsdet")], "SLP-ASSEMBLE"),
+    ("c04-forward-in-sampling", ["C04"], [(FB, "        samples, logabsdet = self._transform.inverse(noise, context=embedded_context)", "        samples, logabsdet = self._transform(noise, context=embedded_context)")], "SLP-ASSEMBLE"),
+    ("c04-context-tiled", ["C04", "C18"], [(FB, "            embedded_context = torchutils.repeat_rows(\n                embedded_context, num_reps=num_samples\n            )\n\n        samples, logabsdet", "            embedded_context = embedded_context.repeat(num_samples, *([1] * (embedded_context.dim() - 1)))\n\n        samples, logabsdet")], "CTX-PAIR"),
+    ("c04-split-swapped", ["C04", "C18"], [(FB, "            samples = torchutils.split_leading_dim(samples, shape=[-1, num_samples])\n\n        return samples\n", "            samples = torchutils.split_leading_dim(samples, shape=[num_samples, -1])\n\n        return samples\n")], "CTX-PAIR"),
+    ("c04-noise-not-from-base", ["C04"], [(FB, "            noise = self._distribution.sample(num_samples, context=embedded_context)", "            noise = torch.randn(embedded_context.shape[0], num_samples, 2)")], "NOISE-SRC"),
+    ("c04-fresh-noise-for-logprob", ["C04"], [(FB, "        samples, logabsdet = self._transform.inverse(noise, context=embedded_context)\n\n        if embedded_context is not None:\n            # Split the context dimension from sample dimension.\n            samples = torchutils.split_leading_dim(samples, shape=[-1, num_samples])\n            logabsdet", "        samples, logabsdet = self._transform.inverse(torch.randn_like(noise), context=embedded_context)\n\n        if embedded_context is not None:\n            # Split the context dimension from sample dimension.\n            samples = torchutils.split_leading_dim(samples, shape=[-1, num_samples])\n            logabsdet")], "SLP-ASSEMBLE"),
+    ("c04-cdn-means-tiled", ["C04"], [(DN, "        means = torchutils.repeat_rows(means, num_samples)", "        means = means.repeat(num_samples, 1)")], "CTX-PAIR"),
+    ("c04-dist-slp-split", ["C04", "C18"], [(DB, "            log_prob = torchutils.split_leading_dim(log_prob, shape=[-1, num_samples])", "            log_prob = torchutils.split_leading_dim(log_prob, shape=[num_samples, -1])")], "CTX-PAIR"),
+    # ---- C18 ----
+    ("c18-cat-dim0", ["C18"], [(DB, "return torch.cat(samples, dim=0 if context is None else 1)", "return torch.cat(samples, dim=0)")], "BATCH-CAT"),
+    ("c18-cat-dim-swapped", ["C18"], [(DB, "return torch.cat(samples, dim=0 if context is None else 1)", "return torch.cat(samples, dim=1 if context is None else 0)")], "BATCH-CAT"),
+    ("c18-no-remainder", ["C18"], [(DB, "            if num_leftover > 0:\n                samples.append(self._sample(num_leftover, context))\n", "")], "BATCH-COUNT"),
+    ("c18-remainder-batchsize", ["C18"], [(DB, "samples.append(self._sample(num_leftover, context))", "samples.append(self._sample(batch_size, context))")], "BATCH-COUNT"),
+    ("c18-valueerror-type", ["C18"], [(DB, '            raise TypeError("Number of samples must be a positive integer.")', '            raise ValueError("Number of samples must be a positive integer.")')], "ARG-CHECK"),
+    ("c18-no-rowcount-check", ["C18"], [(DB, "            if inputs.shape[0] != context.shape[0]:\n                raise ValueError(\n                    \"Number of input items must be equal to number of context items.\"\n                )\n", "")], "ARG-CHECK"),
+    ("c18-rowcount-typeerror", ["C18"], [(DB, "                raise ValueError(\n                    \"Number of input items", "                raise TypeError(\n                    \"Number of input items")], "ARG-CHECK"),
+    ("c18-batchsize-unchecked", ["C18"], [(DB, "            if not check.is_positive_int(batch_size):\n                raise TypeError(\"Batch size must be a positive integer.\")\n", "")], "ARG-CHECK"),
+    ("c18-leftover-dropped-context", ["C18"], [(DB, "samples.append(self._sample(num_leftover, context))", "samples.append(self._sample(num_leftover, None))")], "BATCH-COUNT"),
+    ("c18-normal-sample-shape", ["C18"], [(DN, "            return torchutils.split_leading_dim(samples, [context_size, num_samples])\n\n    def _mean(self, context):\n        if context is None:", "            return torchutils.split_leading_dim(samples, [num_samples, context_size])\n\n    def _mean(self, context):\n        if context is None:")], "SHAPE"),
+]
+
 BENIGN = [
     ("b-c06-rename-local", ["C06"], [(MADE1, "        prev_out_degrees = self.initial_layer.degrees\n        for _ in range(num_blocks):", "        prev_out_degrees = self.initial_layer.degrees\n        for _blk in range(num_blocks):")]),
     ("b-c06-guard-form", ["C06"], [(MADE1, "if torch.all(self.degrees >= in_degrees).item() != 1:", "if not torch.all(in_degrees <= self.degrees):")]),
@@ -152,5 +190,9 @@ BENIGN = [
     ("b-c12-rowwise-mean", ["C12"], [(T + "nonlinearities.py", "        outputs = torch.tanh(inputs)\n        logabsdet = torch.log(1 - outputs ** 2)", "        outputs = torch.tanh(inputs) + 0.0 * inputs.mean(dim=-1, keepdim=True)\n        logabsdet = torch.log(1 - outputs ** 2)")]),
     ("b-c19-eye-promoting", ["C19"], [(T + "qr.py", "identity = torch.eye(self.features, self.features)", "identity = torch.eye(self.features)")]),
     ("b-c19-like-ctor", ["C19"], [(T + "permutations.py", "        logabsdet = inputs.new_zeros(batch_size)", "        logabsdet = torch.zeros(batch_size, dtype=inputs.dtype, device=inputs.device)")]),
+    ("b-c03-sum-spelling", ["C03"], [(FB, "        return log_prob + logabsdet", "        total = logabsdet\n        total = total + log_prob\n        return total")]),
+    ("b-c04-minus-spelling", ["C04"], [(FB, "        return samples, log_prob - logabsdet", "        return samples, -logabsdet + log_prob")]),
+    ("b-c04-repeat-interleave", ["C04", "C18"], [(FB, "            embedded_context = torchutils.repeat_rows(\n                embedded_context, num_reps=num_samples\n            )\n\n        samples, logabsdet", "            embedded_context = embedded_context.repeat_interleave(num_samples, dim=0)\n\n        samples, logabsdet")]),
+    ("b-c18-cat-branch", ["C18"], [(DB, "            return torch.cat(samples, dim=0 if context is None else 1)", "            if context is None:\n                return torch.cat(samples, dim=0)\n            return torch.cat(samples, dim=1)")]),
     ("b-c14-guard-order", ["C14"], [(NORM, "if self.training and not self.initialized:", "if not self.initialized and self.training:")]),
 ]
